@@ -39,7 +39,9 @@ def classify(t):
         return "ref"
     if t == ("upvar", "one_name"):
         return "one"
-    if has_call(t, "Option::<T>::unwrap") and mir.contains(t, lambda x: x == ("upvar", "modifier")):
+    if mir.contains(t, lambda x: x == ("upvar", "modifier")) and (
+            has_call(t, "Option::<T>::unwrap") or mir.contains(t, lambda x: isinstance(x, tuple) and x[0] == "vfield" and x[2] in ("Some", 1))):
+        # the separator: modifier.unwrap() or the payload of `Some(sep)` in a match / map on modifier
         return "sep"
     return "?" + fmt(t)[:30]
 
@@ -254,6 +256,10 @@ def run(ctx, res):
                 got["idx0" if i0[0] == 1 else "idx1"].append(names)
         if not got["idx0"] and not got["idx1"]:
             res.anchor_lost(rid5, "%s: construction of the helper productions ((0..2).map(|idx| ..)) not recognised" % fn, f.loc())
+            continue
+        unknown = [x for k in ("idx0", "idx1") for lst in got[k] for x in lst if str(x).startswith("?")]
+        if unknown:
+            res.anchor_lost(rid5, "%s: a symbol of a helper production is not recognised (%s)" % (fn, unknown[0][:60]), f.loc())
             continue
         for k in ("idx0", "idx1"):
             if sorted(got[k]) == sorted(spec[k]):
